@@ -762,3 +762,9 @@ VARIANTS += [
     V('G-rf-75', 'E', ALL, SL, 'ThreadServlet._stop_workers', r'for w in self\._workers:\n(\s+)w\.join\(\)', r'for worker in self._workers:\n\1worker.join()'),
     V('G-rf-76', 'E', ALL, QU, 'IterableQueue.put_end', r'self\._applied_lids\.put\(z\)\n(\s+)self\.put\(None\)', r'token = z\n\1self._applied_lids.put(token)\n\1self.put(None)'),
 ]
+
+VARIANTS += [
+    V('C12-M24', 'M', ('C12',), CX, 'SpawnProcess.done', r'if self\.exitcode is not None:\n\s+return True\n.*?\n        \)\n', 'return self.exitcode is not None\n', ('C12-10',), note='D17 shape: done() rests on exitcode alone while the collector polls it'),
+    V('C05-M21', 'M', ('C05', 'C08'), SA, 'AsyncIter.__aiter__', r'x = await loop\.run_in_executor\(None, next, instream, finished\)', 'x = await fut\n                fut = loop.run_in_executor(None, next, instream, finished)', ('C05-7', 'C08-5'), note='seeded C05-r3m1 shape (prefetch)'),
+    V('C01-M21', 'M', ('C01', 'C03'), ST, 'fifo_stream', r'if return_exceptions:\n(?:\s+#[^\n]*\n)*\s+y = e\n\s+else:\n\s+raise\n', 'y = e\n            if isinstance(y, Exception) and not return_exceptions:\n                raise y\n', ('C01-3', 'C03-9'), note='seeded C03-r3m2 shape'),
+]
